@@ -115,6 +115,12 @@ pub fn gen_model(rng: &mut Rng, size: usize, with_range: bool) -> Value {
     if rng.chance(1, 3) { m["debug_id"] = json!([*rng.pick(UUIDS)]); }
     if nsrc > 0 && rng.chance(1, 2) {
         m["contents"] = Value::Array((0..nsrc).map(|_| if rng.chance(1, 3) { json!([]) } else { json!([*rng.pick(NAME_POOL)]) }).collect());
+        if rng.chance(1, 6) {
+            // a large embedded source made of the junk-header start bytes: whatever the chunk size of a
+            // buffered reader is, some chunk of the serialised form starts with one of them
+            let big: String = ")]}'".repeat(2500 + rng.below(600) as usize);
+            m["contents"][0] = json!([big]);
+        }
     }
     if nsrc > 0 && rng.chance(1, 4) {
         let mut ig: Vec<u64> = (0..nsrc).filter(|_| rng.chance(1, 2)).collect();
